@@ -174,6 +174,20 @@ def run(ctx):
             ctx.violation({"template": src, "context": kw, "rendered": out, "expected": want}, "a module= namespace exposes the module's callables bound to the current render's context",
                           tags=["c07.module." + tag])
 
+    # ---- inheritable namespaces are reachable from self in derived templates ----------------------------------------------
+    ctx.evaluations += 1
+    lk = TemplateLookup()
+    lk.put_string("/util.html", '<%def name="u()">U</%def>')
+    lk.put_string("/base.html", '<%namespace name="ut" file="/util.html" inheritable="True"/><%namespace name="priv" file="/util.html"/>base[${next.body()}]')
+    lk.put_string("/mid.html", '<%inherit file="/base.html"/>mid(${next.body()})')
+    lk.put_string("/child.html", '<%inherit file="/mid.html"/>${self.ut.u()}|${hasattr(self, "priv")}')
+    try:
+        out = lk.get_template("/child.html").render()
+    except Exception as e:  # noqa
+        out = "raised %s: %s" % (type(e).__name__, str(e)[:80])
+    if out != "base[mid(U|False)]":
+        ctx.violation({"rendered": out, "expected": "base[mid(U|False)]"}, "an inheritable namespace of a base template is reachable from self in derived templates; others are not", tags=["c07.inheritable"])
+
     # ---- (b) member precedence ----------------------------------------------------------------------------------
     NAMES = ["a", "b", "c", "d", "len"]
     nb = 150 if tier == "quick" else 30000
